@@ -36,7 +36,7 @@ C12 line protocol.  One line = one whole case.
                 call offered less than the whole buffer): `dsopA` / `sendLoopA`; without it the whole buffer (`dsop`)
      output per op:  <res>/<getsendbuffer hex>/<wire hex> ; res : sent:<n> | none | timeout | oserror
        followed by ` #<faults of the script still unused>` (`nSF` after `srun`)
-  ns <maxsize> <wscript> <cuts> <nreads> <rcfg> <payloadhex|-> ...
+  ns <maxsize> <wscript> <cuts> <nreads> <rcfg> <payloadhex|->[@<offers|_>]* ...
        rcfg : how the reading NetstringSocket is configured: `c<n>` (constructor maxsize) then any number
               of `s<n>` (setmaxsize) then optionally `a<n>` (read_ns(maxsize=n)), joined by `,`
        every payload is written with write_ns (after a Timeout: flush until done, bounded);
@@ -338,6 +338,25 @@ def flushUntil : Nat → SSt → String → SSt × String
     | (.timeout, st') => flushUntil k st' (acc ++ "+timeout")
     | (_, st') => (st', acc ++ "+flushed")
 
+/-- the same with the offers observed for each flush (`[]` = the whole buffer) -/
+def flushUntilA : Nat → List (List Nat) → SSt → String → SSt × String
+  | 0, _, st, acc => (st, acc)
+  | k + 1, offs, st, acc =>
+    match flushA (offs.headD []) st with
+    | (.timeout, st') => flushUntilA k offs.tail st' (acc ++ "+timeout")
+    | (_, st') => (st', acc ++ "+flushed")
+
+/-- a payload token: `<hex|->[@<offers|_>]*` - the offers of the write_ns call, then of each flush that followed it
+    (`_` = the whole buffer every time) -/
+def parsePayloadA? (tok : String) : Option (Bytes × List (List Nat)) :=
+  match splitOnChar tok '@' with
+  | [] => none
+  | p :: offs =>
+    match hexToNats? p, offs.foldr (fun w acc => match acc, (if w = "_" then some [] else parseOffers? w) with
+        | some l, some o => some (o :: l) | _, _ => none) (some []) with
+    | some b, some l => some (b, l)
+    | _, _ => none
+
 def nSTimeouts (s : List SEv) : Nat := (s.filter (fun e => e == .timeout || e == .clock)).length
 
 /-- `c<n>[,s<n>]*[,a<n>]`: constructor, setmaxsize calls, optional read_ns argument -/
@@ -370,15 +389,16 @@ def handleNs (toks : List String) : String :=
   match toks with
   | ms :: wscript :: cuts :: nreads :: rcfg :: payloads =>
     match ms.toNat?, parseSScript? wscript, natList? cuts, nreads.toNat?, parseRcfg? rcfg,
-          payloads.foldr (fun p acc => match acc, hexToNats? p with
+          payloads.foldr (fun p acc => match acc, parsePayloadA? p with
             | some l, some b => some (b :: l) | _, _ => none) (some []) with
     | some ms, some wscript, some cuts, some nreads, some (ns, arg), some payloads =>
       let bound := nSTimeouts wscript + 1
-      let (wst, wouts) := payloads.foldl (fun (acc : SSt × List String) p =>
-        match writeNs ms p acc.1 with
+      let (wst, wouts) := payloads.foldl (fun (acc : SSt × List String) (p : Bytes × List (List Nat)) =>
+        -- `writeNsA [] = writeNs`, `flushA [] = flush`: without observed offers this is the verified loop
+        match writeNsA (p.2.headD []) ms p.1 acc.1 with
         | (.ok, st') => (st', "ok" :: acc.2)
         | (.nsTooLong, st') => (st', "nstoolong" :: acc.2)
-        | (.timeout, st') => let (st'', s) := flushUntil bound st' "timeout"; (st'', s :: acc.2))
+        | (.timeout, st') => let (st'', s) := flushUntilA bound p.2.tail st' "timeout"; (st'', s :: acc.2))
         (⟨[], [], wscript⟩, [])
       let script := cutChunks cuts wst.wire
       let (rres, _) := NsSock.readNsManyI nsCfg ns arg nreads ⟨[], script⟩
